@@ -78,3 +78,15 @@ package ast
 //@   ensures only-old-root-linked: forall q *Symbol :: isInvalidRef(old(q.Link)) && !isInvalidRef(q.Link) ==> q == old(symPtr(symbols, symRoot(symbols, old)))
 //@   ensures only-two-classes-touched: forall q *Symbol :: !isInvalidRef(old(q.Link)) && q.Link != old(q.Link) ==>
 //@       old(symRoot(symbols, q.Link)) == old(symRoot(symbols, old)) || old(symRoot(symbols, q.Link)) == old(symRoot(symbols, new))
+
+// C15: slot counters are combined with a pointwise maximum.
+//@ func (*SlotCounts).UnionMax
+//@   arith int
+//@   prop C15
+//@   requires a != nil
+//@   ensures pointwise-max: forall k int :: 0 <= k && k < 4 ==> a[k] == (old(a[k]) >= b[k] ? old(a[k]) : b[k])
+//@   ensures other-counters-untouched: forall q *SlotCounts, k int :: q != a && !fresh(q) && 0 <= k && k < 4 ==> q[k] == old(q[k])
+//@   loop 0 invariant forall q *SlotCounts, k int :: q != a && !fresh(q) && 0 <= k && k < 4 ==> q[k] == old(q[k])
+//@   loop 0 invariant forall k int :: 0 <= k && k <= rangeindex ==> a[k] == (old(a[k]) >= b[k] ? old(a[k]) : b[k])
+//@   loop 0 invariant forall k int :: rangeindex < k && k < 4 ==> a[k] == old(a[k])
+//@   loop 0 invariant forall k int :: 0 <= k && k < 4 ==> b[k] == entry(b)[k]
